@@ -32,7 +32,7 @@ Verdict(rec) ==
   IN [ nopanic |-> ~st.panic,
        attached |-> \A c \in 1..Len(F) : F[c].k = "com" => ComCountFast(F, st, c) = 1,
        roundtrip |-> Shape(rs) = Shape(SrcItems(F, 1, 0)),
-       conform |-> /\ \A d \in 1..Len(F) : F[d].k = "dec" => DecText(F, st.decs[d]) = RealDec(rec, F[d].node, F[d].name)
+       conform |-> /\ \A d \in 1..Len(F) : (F[d].k = "dec" /\ ~F[d].dup) => DecText(F, st.decs[d]) = RealDec(rec, F[d].node, F[d].name)
                    /\ \A d \in 1..Len(F) : (F[d].k = "dec" /\ F[d].name = "Start") =>
                          (Sp(st.bef, F[d].node) = RealSp(rec, F[d].node).b /\ Sp(st.aft, F[d].node) = RealSp(rec, F[d].node).a) ]
 
